@@ -10,31 +10,31 @@ E1_NOTE = ("Trusted: the reference interpreter engine/refpeg (the oracle, writte
 
 CHECKS = {
     "C01": dict(engine="e1-conform", technique="bounded-exhaustive enumeration of (grammar, input) pairs executed on the real generated parsers, compared with a reference PEG interpreter",
-                text="Every expression tree up to the node bound over the construct alphabet (both whitespace modes, @char classes, every escape spelling) is compiled by the real generator and rustc and run on every string up to the length bound; acceptance and consumed bytes must equal the reference interpreter's. Exhaustive inside the stated bounds, silent outside them.",
+                text="Every expression tree up to the node bound over the construct alphabet (both whitespace modes, a plain nullable rule, @char classes, every escape spelling, every printable ASCII character as a case-insensitive literal against all 7-bit bytes) is compiled by the real generator and rustc and run on every string up to the length bound; acceptance and consumed bytes must equal the reference interpreter's. Exhaustive inside the stated bounds, silent outside them.",
                 ref="§3 C01"),
     "C02": dict(engine="e1-conform", technique="bounded-exhaustive enumeration of rule shapes x inputs on real generated parsers; structural comparison of the Debug tree with the reference tree",
-                text="All field-carrying trees up to the node bound, the override family, and every context x field-bundle x tail combination, on all inputs up to the length bound: the Debug tree of the real result, read structurally, must hold exactly the reference's matches per field, in order, with the right variant.",
+                text="All field-carrying trees up to the node bound (incl. plain nullable rules), the override family, and every head x context x field-bundle x tail combination (14 bundles), on all inputs up to the length bound: the Debug tree of the real result, read structurally, must hold exactly the reference's matches per field, in order, with the right variant.",
                 ref="§3 C02"),
     "C03": dict(engine="e2-shapes", technique="bounded-exhaustive enumeration of rule shapes x names x derive sets through the real code generator, with rustc as the checker of generated exact-type assertions",
                 text="The C02 shape space (all field trees up to the node bound, override family, contexts x bundles x tails), 11 rule kinds x 11 bundles x 5 wrappers, recursive shapes whose cycle is broken by * or Vec under 4 directive sets, and every raw-able Rust keyword as field name, rule name and @char rule name, rotating over 5 derive sets: each generated module is compiled (crate carries forbid(unsafe_code)) together with assertions computed from the documented mapping - exhaustive destructuring without `..`, a typed let per field (Option/Vec/Box/enum exactly), wildcard-free matches over every generated enum with typed payloads, PegPosition/PegParser/derive bounds. A module rustc rejects is attributed to its grammar.",
                 ref="§3 C03", note="Trusted: rustc as judge; engine/refpeg/src/shape.rs as the reading of the documented mapping. Outside the quantifier: names colliding with prelude/peginator items."),
     "C04": dict(engine="e1-conform", technique="bounded-exhaustive enumeration of byte-level-sensitive grammars x multi-byte inputs on real parsers with the cfg(peginator_verif) boundary assertion on",
-                text="Trees over multi-byte literals, ASCII/non-ASCII ranges, insensitive literals, char, @char classes and an extern rule, on every string up to the length bound over a 10-character alphabet chosen for shared continuation bytes and case-folding traps: no panic (the hook turns a split sequence into one), every exposed offset on a char boundary, every string a substring, acceptance equal to the reference.",
+                text="Trees over multi-byte literals, ASCII/non-ASCII ranges, insensitive literals, char, @char classes and an extern rule, on every string up to the length bound over a 14-character alphabet chosen for shared continuation bytes, lead bytes equal to Latin-1 code points and Unicode case-folding traps (KELVIN SIGN, İ), plus a guard family of non-ASCII case-insensitive literals that the compiler may reject: no panic (the hook turns a split sequence into one), every exposed offset on a char boundary, every string a substring, acceptance equal to the reference.",
                 ref="§3 C04"),
     "C05": dict(engine="e1-conform", technique="bounded-exhaustive differential exploration: every subset of @memoize markers x every input, real-vs-real, plus every ordered pair of parse calls",
-                text="For every base grammar of the family (rules reached repeatedly at one offset through different contexts) every subset of rules is memoized and compiled; on every input the result must equal the un-memoized variant's (itself compared with the reference), and every ordered pair of inputs parsed back to back must give the second input's fresh result.",
+                text="For every base grammar of the family (rules reached repeatedly at one offset through different contexts; all-@no_skip_ws, every mixed skip-mode assignment with whitespace in the inputs, and with a pure refusing @check on a rule) every subset of rules is memoized and compiled; on every input the result must equal the un-memoized variant's (itself compared with the reference), and every ordered pair of inputs parsed back to back must give the second input's fresh result.",
                 ref="§3 C05"),
     "C06": dict(engine="e1-conform", technique="bounded-exhaustive enumeration with probe extern rules counting body evaluations per (rule, offset); multiset compared with the reference's cache-miss events",
-                text="Every rule body of the memo family starts with a probe; for every memo subset and input each memoized rule's probe fires at most once per offset, all-memoized grammars stay under rules x (len+1), and the whole probe multiset equals the reference interpreter's (so missing evaluations are noticed too).",
+                text="Every rule body of the memo family (and of a @leftrec-over-@memoize family) starts with a probe; for every memo subset and input each memoized rule's probe fires at most once per offset, all-memoized grammars stay under rules x (len+1), and the whole probe multiset equals the reference interpreter's (so missing evaluations are noticed too).",
                 ref="§3 C06"),
     "C07": dict(engine="e1-conform", technique="bounded-exhaustive enumeration of left-recursive grammars x inputs against the literal seed-and-grow reference and an interpreter-free closed form; in-process watchdog for termination",
-                text="The usual shape with all tail/base sets up to 2+2 in both alternative orders, indirect recursion and eight unusual bodies, on every token string up to the length bound: result tree, consumed bytes and acceptance equal the reference; for the usual recursive-first shape the reference itself is checked against the closed form b x* / left fold; a watchdog reports hangs.",
+                text="The usual shape with all tail/base sets up to 2+2 in both alternative orders, indirect recursion and eight unusual bodies, under roots that ask for the rule once, with $, or twice at one position, on every token string up to the length bound: result tree, consumed bytes and acceptance equal the reference; for the usual recursive-first shape the reference itself is checked against the closed form b x* / left fold; a watchdog reports hangs.",
                 ref="§3 C07"),
     "C08": dict(engine="e1-conform", technique="bounded-exhaustive enumeration of skipping/non-skipping rule combinations x inputs with whitespace and near-miss characters",
-                text="Trees over every token kind in skipping and @no_skip_ws roots calling skipping and non-skipping leaves, includes carrying the opposite flag, built-in and user-defined Whitespace, on every string up to the length bound over token characters, whitespace and near misses: acceptance, consumed bytes, tree and positions equal the reference.",
+                text="Trees over every token kind (incl. literals that start with a whitespace character) in skipping and @no_skip_ws roots calling skipping and non-skipping leaves (struct, @string, override, plain nullable), includes carrying the opposite flag, built-in, user-defined and non-idempotent user-defined Whitespace, on every string up to the length bound over token characters, whitespace and near misses: acceptance, consumed bytes, tree and positions equal the reference.",
                 ref="§3 C08"),
     "C09": dict(engine="e1-conform", technique="bounded-exhaustive enumeration of @position subsets x inputs; reference spans plus model-free range invariants",
-                text="Field trees with every subset of leaf rules marked @position (struct, @string @position, enum override of @position rules, a memoized one), skipping and not, on all inputs with multi-byte characters and spaces: every range equals the reference span; nested ranges lie inside their parent, successive ones are ordered, @string @position strings equal their slice.",
+                text="Field trees with every subset of leaf rules marked @position (struct, @string @position, enum override of @position rules), each also with root and leaves memoized, skipping and not, on all inputs with multi-byte characters and spaces: every range equals the reference span; nested ranges lie inside their parent, successive ones are ordered, @string @position strings equal their slice.",
                 ref="§3 C09"),
     "C10": dict(engine="e1-conform", technique="bounded-exhaustive enumeration of failing parses; reported offset/detail checked against the reference's failed-attempt log",
                 text="On every failing (grammar, input) pair of the tree corpus (with checks and externs), the memo family and the left-recursive family: the offset is a char boundary inside the input at which an attempt failed, the detail names an attempt that failed there, without memo/leftrec it lies in [P_strict, P_lenient] (equal in ~97% of cases, so exact), and it is never the sentinel for recursive-first rules.",
@@ -43,13 +43,13 @@ CHECKS = {
                 text="Every text up to the length bound over {a, é, newline, space, 😀} x every boundary position x file name absent/present (colours off and forced on), plus long-line families: no panic, location line, printed source line and caret column equal the closed form.",
                 ref="§3 C11"),
     "C13": dict(engine="e1-conform", technique="bounded-exhaustive differential exploration: >Rule vs parenthesised body in every context, real-vs-real and against the reference",
-                text="Every one-hole context up to the node bound x 8 included bodies x 6 directive sets on the included rule x skipping/non-skipping includer, compiled twice (include / inlined): identical Debug results and error positions on every input, both equal to the reference; compiler acceptance must agree; and the exact-type assertions computed for the inlined grammar must compile against the include variant's generated code (same public types, rustc as judge).",
+                text="Every one-hole context up to the node bound x 8 included bodies x 6 directive sets on the included rule x skipping/non-skipping includer (plus a second, never-called includer of the same rule with the opposite skip mode), compiled twice (include / inlined): identical Debug results and error positions on every input, both equal to the reference; compiler acceptance must agree; and the exact-type assertions computed for the inlined grammar must compile against the include variant's generated code (same public types, rustc as judge).",
                 ref="§3 C13"),
     "C14": dict(engine="e1-conform", technique="bounded-exhaustive enumeration of grammars x inputs x environment answers of the user functions (deviation-bounded breadth-first search over answer tables)",
-                text="Checks on struct/alias/enum/@string/@string @position/@char rules and extern rules (with and without result type, with and without user context) in every context up to the node bound; for every input the answer tables are explored breadth-first from the default up to the deviation bound; result and every recorded argument must equal the reference under the same table.",
+                text="Checks on struct/alias/enum/@string/@string @position/@char rules and extern rules (with and without result type, with and without user context) in every context up to the node bound, inputs with a multi-byte character; for every input the answer tables are explored breadth-first from the default up to the deviation bound; result and every recorded argument must equal the reference under the same table.",
                 ref="§3 C14"),
     "C19": dict(engine="e1-conform", technique="bounded-exhaustive enumeration of traced parses with a recording ParseTracer; nesting, outcomes and (without memo) the exact event sequence compared with the reference",
-                text="A quarter of the C01 trees plus the memo, left-recursive and hook families: result with the recording tracer and with parse_with_trace equals the plain result, events are properly nested with the reference's outcome per (rule, offset), and for grammars without memo/leftrec the whole event sequence equals the reference's.",
+                text="A quarter of the C01 trees plus the memo, left-recursive and hook families and a deep-nesting family (up to 200 rule entries open at once, through parse_with_trace too): result with the recording tracer and with parse_with_trace equals the plain result, events are properly nested with the reference's outcome per (rule, offset), and for grammars without memo/leftrec the whole event sequence equals the reference's.",
                 ref="§3 C19"),
     "C12": dict(engine="tools-c12", technique="bounded-exhaustive enumeration of layout and spelling variants of corpus grammars through the real front end; Debug of the real Grammar compared with the reference structure rendered in the same form",
                 text="~1000 (thorough: ~6000) grammars - samples of every E1 corpus, every tree up to the node bound over two atoms with every operator (precedence), redundant parentheses, every ordered selection of up to 3 directives, @char/@extern forms - each in its canonical text, with each of 7 fillers (spaces, newlines, CRLF, comments) in all gaps at once, every single gap deviation and (thorough) every pair; plus every documented spelling of each pool character in literal, inner-literal, range-start, range-end and @char positions: the Debug structure must be the denoted one and escape spellings must generate the same code as the canonical spelling.",
@@ -67,7 +67,7 @@ CHECKS = {
                 text="States (grammar content, prefix, destination bytes) per mode - file mode with explicit/default destination, with rustfmt, directory mode with two files - are explored breadth-first to a fixpoint (quick: 1746 runs over 1746 reachable states and 15098 transitions); after every run the destination must be header+prefix+code of the current grammar, an up-to-date destination must keep bytes and mtime, a failing run must leave destinations untouched (other files of a directory run: untouched or complete).",
                 ref="§3 C18", note="Trusted: the library route (generate_source_header, Grammar::from_str, generate_code) as the definition of the expected file; token-wise comparison after the comment header. Outside the alphabet: CRC collisions, concurrent runs, missing rustfmt, derive/user-context changes."),
     "C20": dict(engine="e6-sched", level="model_checking", technique="exhaustive DFS over thread interleavings (shuttle) of real generated parsers with every tracer callback a scheduling point; plus exhaustive enumeration of sequential call histories up to length 3",
-                text="For 20 (thorough: 40) memoized and left-recursive grammars: every ordered sequence of parse calls up to length 3 (one thread, and alternating fresh threads) and, under shuttle's exhaustive DFS scheduler, every interleaving of two (thorough: also three) concurrent parses chosen to collide on the same rules and offsets - every complete schedule's results must equal the reference model's per input. Quick: 193k schedules / 2.3M scheduling points and 75k histories.",
+                text="For 26 (thorough: 46) memoized, left-recursive, whitespace-skipping and deep-nesting grammars (one input nests 300 deep): every ordered sequence of parse calls up to length 3 (own strings, one reused buffer, alternating fresh threads; oracle = reference model and the complete result of the input parsed alone on a fresh thread) and, under shuttle's exhaustive DFS scheduler, every interleaving of two (thorough: also three) concurrent parses chosen to collide on the same rules and offsets - every complete schedule's results must equal the reference model's per input. Quick: 193k schedules / 2.3M scheduling points and 75k histories.",
                 ref="§3 C20", note="Granularity: rule entry/exit/cache notices (the tracer seam); finer interleavings are not explored. Shuttle threads share OS thread-locals, so hidden thread-local state is seen as shared state. Trusted: shuttle's DFS scheduler, the reference model."),
 }
 
